@@ -344,3 +344,27 @@ Definition astep_local (s : aslice) (r : arun) : option (aslice * arun) :=
   else if N.eqb (a_pc r) 1 then
     Some (s, {| a_pc := 2; a_sel := a_sel r; a_used := Some (as_edges s ++ [a_sel r]) |})
   else None.
+
+(* (d) a user function of a run handed the context of the CONSTRUCTOR instead of the context of
+   the run (defect F-C09b, flow/agent/react/react.go:224 before 69dbab3: the branch condition
+   after the chat model closed over NewAgent's ctx and passed it to the StreamToolCallChecker).
+   The store is that one context, reduced to its cancelled flag; its owner — whoever called the
+   constructor — may cancel it once the constructor has returned (run kind [c_owner]: one step
+   that cancels).  A checking run ([c_owner = false]) has its own context [c_own_cancelled];
+   pc 0: the checker looks at the context it was handed; verdict = that context is still live. *)
+Record crun : Type := { c_owner : bool; c_pc : N; c_own_cancelled : bool; c_verdict : option bool }.
+
+Definition cstep_ctor (ctor_cancelled : bool) (r : crun) : option (bool * crun) :=
+  if N.eqb (c_pc r) 0 then
+    if c_owner r then Some (true, {| c_owner := true; c_pc := 1; c_own_cancelled := c_own_cancelled r; c_verdict := None |})
+    else Some (ctor_cancelled, {| c_owner := false; c_pc := 1; c_own_cancelled := c_own_cancelled r;
+                                  c_verdict := Some (negb ctor_cancelled) |})
+  else None.
+
+(* the repaired condition hands on the context it is called with: the run's own *)
+Definition cstep_own (ctor_cancelled : bool) (r : crun) : option (bool * crun) :=
+  if N.eqb (c_pc r) 0 then
+    if c_owner r then Some (true, {| c_owner := true; c_pc := 1; c_own_cancelled := c_own_cancelled r; c_verdict := None |})
+    else Some (ctor_cancelled, {| c_owner := false; c_pc := 1; c_own_cancelled := c_own_cancelled r;
+                                  c_verdict := Some (negb (c_own_cancelled r)) |})
+  else None.
